@@ -5,6 +5,7 @@ import ast
 
 from .. import poly
 from ..absint import BoolV, DictV, NoneV, Num, Opaque, T, show_cond
+from ..rules_vn import cased
 from ..core import Result, finding, norm_construct, register
 from ..driver import check_calculate_driver
 from ..indic import analyse_class
@@ -28,7 +29,7 @@ def affine(res, repo, cls, rel_name, fn_expr):
     ci = {c.name: c for c in repo.shipped()}[cls]
     ca = analyse_class(repo, ci)
     n = 0
-    for p in ca.paths:
+    for p in cased(ca.paths):
         if not isinstance(p.ret, DictV):
             continue
         try:
@@ -49,7 +50,7 @@ def ordered(res, repo, signs: Signs, cls, lo, mid, hi):
     ca1 = analyse_class(repo, ci)
     ca = signs.analyse(ci)
     n = 0
-    for p in ca.paths:
+    for p in cased(ca.paths):
         if not isinstance(p.ret, DictV):
             continue
         vals = {k: v.f for k, v in p.ret.items.items() if isinstance(v, Num)}
@@ -110,7 +111,7 @@ def run(repo, tier) -> Result:
     ordered(res, repo, signs, "KC", "lower", "band", "upper")
     # Donchian: same window on high and low, includes the current candle
     ca = analyse_class(repo, by["Donchian"])
-    for p in ca.paths:
+    for p in cased(ca.paths):
         if not isinstance(p.ret, DictV) or not isinstance(p.ret.items.get("DCU"), Num):
             continue
         up = window_pair(p.ret.items["DCU"].f, "max", "high")
@@ -122,7 +123,7 @@ def run(repo, tier) -> Result:
     # TR >= high - low >= 0 ; ATR, STDEV >= 0
     ca = analyse_class(repo, by["TR"])
     hl = mk_rd("high", T) - mk_rd("low", T)
-    for p in ca.paths:
+    for p in cased(ca.paths):
         if isinstance(p.ret, Num):
             a = poly._single_atom(p.ret.f)
             if a is not None and a[0] == "fn" and a[1] == "max" and hl in a[2:]:
@@ -138,7 +139,7 @@ def run(repo, tier) -> Result:
     # ---- finite domains
     ca = analyse_class(repo, by["Supertrend"])
     d_prev = mk_rd(SELF + ".direction", T - ONE)
-    for p in ca.paths:
+    for p in cased(ca.paths):
         if not isinstance(p.ret, DictV):
             continue
         facts = p.state.facts
@@ -172,7 +173,7 @@ def run(repo, tier) -> Result:
             res.fail("R-FINITE", finding("C10", "R-FINITE", ca.fn, p.node, f"with direction {val}: long={lg!r} short={sh!r} trend={trend!r}: not 'exactly one of long/short set and equal to trend'", construct=f"Supertrend long/short [{guard}]"))
     ca = analyse_class(repo, by["OBV"])
     prev, vol = mk_rd(SELF, T - ONE), mk_rd("volume", T)
-    for p in ca.paths:
+    for p in cased(ca.paths):
         if isinstance(p.ret, Num):
             step = p.ret.f - prev
             has_prev = any(c == ("present", SELF, T - ONE) for c in p.state.facts)
@@ -188,7 +189,7 @@ def run(repo, tier) -> Result:
     prev = mk_rd(SELF, T - ONE)
     from ..rules_vn import expand_cases
 
-    for p in ca.paths:
+    for p in cased(ca.paths):
         for _f, ret, _w in expand_cases(tuple(p.state.facts), p.ret, {}):
             if isinstance(ret, Num) and (ret.f.is_zero() or ret.f == ONE or ret.f == prev + ONE or ret.f == prev):
                 res.ok("R-FINITE", {"class": "Counter", "value": repr(ret.f)}, nontrivial=f"Counter:{ret.f!r}")
@@ -197,7 +198,7 @@ def run(repo, tier) -> Result:
     # ---- intervals
     ca1 = analyse_class(repo, by["RSI"])
     ca = signs.analyse(by["RSI"])
-    for p in ca.paths:
+    for p in cased(ca.paths):
         if isinstance(p.ret, Num):
             env = signs.env_for(ca1, tuple(p.state.facts))
             lo_s, hi_s = env.frac(p.ret.f), env.frac(C(100) - p.ret.f)
@@ -214,7 +215,7 @@ def run(repo, tier) -> Result:
             else:
                 res.fail("R-INTERVALS", finding("C10", "R-INTERVALS", ca.fn, p.node, f"RSI in [0,100] not derivable: sign(value)={lo_s}, sign(100-value)={hi_s}", construct=f"RSI bound: {repr(p.ret.f)[:120]}"))
     ca = analyse_class(repo, by["AROON"])
-    for p in ca.paths:
+    for p in cased(ca.paths):
         if not isinstance(p.ret, DictV):
             continue
         for fld in ("AROONU", "AROOND"):
